@@ -161,7 +161,9 @@ COMMENTS = ["", " ", "   ", " a comment", "comment", " qtot 1.0", " one ; two", 
             "   \\", " C1 \\", "\\",
             # control characters that `str.splitlines` treats as line boundaries but a text FILE does not (form feed,
             # vertical tab, FS/GS/RS): what follows them is still comment (seed C15-9: read().splitlines())
-            " page\x0c 1 2 1", "\x0b 2 3", " x\x1c 1 3 1", "\x1d 9 9", " y\x1e 4 5 1"]
+            " page\x0c 1 2 1", "\x0b 2 3", " x\x1c 1 3 1", "\x1d 9 9", " y\x1e 4 5 1",
+            # curly braces (LaTeX-style units, template placeholders): text, not `str.format` fields (seed C16-14)
+            " b0 in nm (table {{1}})", " {0} {name}", " } {", "{"]
 PP = ["#include \"forcefield.itp\"", "#ifdef POSRES", "#endif", "#define X 1", "#ifndef FLEX", "#else",
       "#", "# spaced"]
 
